@@ -30,6 +30,7 @@ CONSTANTS Inst,       \* symbolic instance ids (the adapter maps them to real uu
           MaxNow,     \* bound on the clock
           Ops,        \* enabled request kinds
           Adapter,    \* TRUE iff the server has an external state adapter
+          Compress,   \* TRUE iff the adapter compresses the logs
           Dev,        \* named deviations
           L
 
@@ -80,7 +81,10 @@ Readable(i) == store[i] # Null /\ store[i] # Torn
 \* constants are the factory's unless the restore re-applies them)
 Restored(i) == [last |-> now, to |-> store[i].to,
                 kset |-> IF "D16b_no_replay" \in Dev THEN KSet0 ELSE store[i].kset,
-                sess |-> IF store[i].sess = NoSess THEN NoSess ELSE [store[i].sess EXCEPT !.live = FALSE]]
+                sess |-> IF store[i].sess = NoSess THEN NoSess
+                         ELSE [store[i].sess EXCEPT !.live = FALSE,
+                                  \* D15: the compressed format keeps one value list per constant; steps without settings vanish
+                                  !.slog = IF Compress /\ "D15_compress_lossy" \in Dev THEN SelectSeq(@, LAMBDA v : v > 0) ELSE @]]
 Ensure(m, i) == IF m[i] # Null THEN m ELSE IF Adapter /\ Readable(i) THEN [m EXCEPT ![i] = Restored(i)] ELSE m
 Exists(i) == Ensure(mem, i)[i] # Null
 \* get_instance: touch, then sweep
@@ -152,7 +156,8 @@ Step(i, set) ==      \* POST /<i>/run-step  (set > 0: settings k := set; 0: empt
                     /\ ideal' = [ideal EXCEPT ![i].sess = ri.ss]
                     /\ SeenAcc(i)
                     /\ Log([op |-> "Step", i |-> i, set |-> set, status |-> 200, row |-> r.row, want |-> ri.row,
-                            clock |-> IF ri.ss = NoSess THEN 0 ELSE ri.ss.clock, slog |-> IF ri.ss = NoSess THEN <<>> ELSE ri.ss.slog])
+                            clock |-> IF ri.ss = NoSess THEN 0 ELSE ri.ss.clock, slog |-> IF ri.ss = NoSess THEN <<>> ELSE ri.ss.slog,
+                            slogF |-> r.ss.slog])
     /\ UNCHANGED now
 
 \* n steps with the same settings (POST /<i>/run-steps {numberSteps, settings})
@@ -182,7 +187,8 @@ StepsN(i, n, set) ==
                     /\ ideal' = [ideal EXCEPT ![i].sess = ri.ss]
                     /\ SeenAcc(i)
                     /\ Log([op |-> "Steps", i |-> i, n |-> n, set |-> set, status |-> 200, rows |-> r.rows, want |-> ri.rows,
-                            clock |-> IF ri.ss = NoSess THEN 0 ELSE ri.ss.clock, slog |-> IF ri.ss = NoSess THEN <<>> ELSE ri.ss.slog])
+                            clock |-> IF ri.ss = NoSess THEN 0 ELSE ri.ss.clock, slog |-> IF ri.ss = NoSess THEN <<>> ELSE ri.ss.slog,
+                            slogF |-> r.ss.slog])
     /\ UNCHANGED now
 
 Results(i) ==        \* GET /<i>/session-results
@@ -195,7 +201,8 @@ Results(i) ==        \* GET /<i>/session-results
                        rows |-> IF m1[i].sess = NoSess THEN <<>> ELSE m1[i].sess.rlog,
                        want |-> IF ideal[i].sess = NoSess THEN <<>> ELSE ideal[i].sess.rlog,
                        clock |-> IF ideal[i].sess = NoSess THEN 0 ELSE ideal[i].sess.clock,
-                       slog |-> IF ideal[i].sess = NoSess THEN <<>> ELSE ideal[i].sess.slog])
+                       slog |-> IF ideal[i].sess = NoSess THEN <<>> ELSE ideal[i].sess.slog,
+                       slogF |-> IF m1[i].sess = NoSess THEN <<>> ELSE m1[i].sess.slog])
     /\ UNCHANGED now
 
 KeepAlive(i) ==      \* POST /<i>/keep-alive
